@@ -1,6 +1,7 @@
 /- Line-protocol handlers for Weisfeiler-Lehman (C02). -/
 import SkNet.Model.WL
 import SkNet.Spec.WL
+import SkNet.Model.WLWitness
 
 namespace SkNet.Drive.C02
 open SkNet SkNet.Proto SkNet.WL
@@ -22,6 +23,10 @@ def maxIter? (s : String) : Option (Option Nat) :=
   if s.startsWith "-" then some none else s.toNat?.map some
 
 def handle : Handler
+  -- the literals of the Lean collision witness: `n indptr indices powers-as-bit-patterns`
+  | "c02.witness", [] =>
+      let ip := collisionAdj.foldl (fun acc r => acc ++ [acc.getLast! + r.length]) [0]
+      some s!"{collisionAdj.length} {showList (ip.map Int.ofNat)} {showList (collisionAdj.flatten.map Int.ofNat)} {showList (collisionPowers.toList.map fun x => Int.ofNat x.toBits.toNat)}"
   | "c02.wl", [n, ip, ix, pw, mi] => some <| Option.getD (do
       let adj ← adj? n ip ix
       some ("ok " ++ showList (colorWL (floatOps (← powers? pw)) adj (← maxIter? mi)))) "bad-args"
